@@ -69,6 +69,23 @@ Proof.
   destruct (bk || bv); intros w; [apply wp_panic | apply wp_ret]; reflexivity.
 Qed.
 
+Lemma frame_unwind_key k : frame (unwind_key E k).
+Proof.
+  unfold unwind_key. apply frame_bind; [apply frame_emit|]. intros _.
+  apply frame_bind; [apply frame_cbd|]. intros _. apply frame_ret.
+Qed.
+Lemma frame_unwind_pair p : frame (unwind_pair E p).
+Proof.
+  unfold unwind_pair. apply frame_bind; [apply frame_emit|]. intros _.
+  apply frame_bind; [apply frame_cbd|]. intros _.
+  apply frame_bind; [apply frame_cbd|]. intros _. apply frame_ret.
+Qed.
+Lemma frame_unwind_pairs l : frame (unwind_pairs E l).
+Proof.
+  induction l as [|p t IH]; cbn [unwind_pairs]; [apply frame_ret|].
+  apply frame_bind; [apply frame_unwind_pair | intros _; exact IH].
+Qed.
+
 (* a frame computation keeps everything *)
 Lemma frame_keeps {A} (c : M A) : frame c -> keeps c.
 Proof.
@@ -83,6 +100,16 @@ Lemma wp_frame {A} (c : M A) (Qn : A -> world -> Prop) (Qp : world -> Prop) w :
   (forall a w', self w' = self w -> Qn a w') -> (forall w', self w' = self w -> Qp w') ->
   wp c Qn Qp w.
 Proof. intros Hc H1 H2. eapply wp_mono; [apply Hc | |]; cbn beta; auto. Qed.
+
+(* unwinding cleanup that only runs destructors of locals *)
+Lemma wp_on_unwind_frame {A} (cleanup : M unit) (c : M A) (Qn : A -> world -> Prop) (Qp : world -> Prop) w :
+  frame cleanup ->
+  wp c Qn (fun w' => forall w'', self w'' = self w' -> Qp w'') w ->
+  wp (on_unwind cleanup c) Qn Qp w.
+Proof.
+  intros Hf H. apply wp_on_unwind. eapply wp_mono; [exact H | auto |]; cbn beta.
+  intros w' Hq. apply wp_frame; [exact Hf | |]; intros; apply Hq; assumption.
+Qed.
 
 (* ---------- scanning ---------- *)
 Lemma scan_loop_spec (test : K * V -> M bool) :
@@ -330,6 +357,7 @@ Qed.
 Lemma keeps_insert_ii k v u : keeps (insert_ii E debug k v u).
 Proof.
   intros w Hw. unfold insert_ii. apply wp_bind.
+  apply wp_on_unwind_frame; [apply frame_unwind_pair|].
   eapply wp_mono; [apply scan_spec; [intros; apply frame_test_k | exact Hw] | |]; cbn beta.
   - intros [i|] w' [Hs Hi].
     + destruct (WF_live _ _ Hw Hi) as [p Hp].
@@ -342,14 +370,17 @@ Proof.
         apply wp_ret. unfold inv_post. simp_w. rewrite Hs.
         split; [apply WF_set_slot_some; auto | apply cap_set_slot].
     + apply wp_bind. apply wp_get_len. apply wp_bind. apply wp_get_cap.
+      apply wp_bind. apply wp_on_unwind_frame; [apply frame_unwind_pair|].
       apply wp_bind. apply wp_dbg_assert.
-      * intros _. apply wp_bind. apply wp_p_write_checked.
-        -- intros Hc. apply wp_bind. apply wp_set_len. apply wp_ret.
-           unfold inv_post. simp_w. rewrite Hs in *.
-           split; [apply WF_append; auto | rewrite cap_set_len, cap_set_slot; reflexivity].
-        -- intros _. apply inv_post_refl; auto.
-      * intros _ _. apply inv_post_refl; auto.
-  - intros w' Hs. apply inv_post_refl; auto.
+      * intros _. apply wp_check_index.
+        -- intros Hc. apply wp_bind. apply wp_p_write_checked.
+           ++ intros _. apply wp_bind. apply wp_set_len. apply wp_ret.
+              unfold inv_post. simp_w. rewrite Hs in *.
+              split; [apply WF_append; auto | rewrite cap_set_len, cap_set_slot; reflexivity].
+           ++ intros _. apply inv_post_refl; auto.
+        -- intros _ w'' Hs''. apply inv_post_refl; [exact Hw | congruence].
+      * intros _ _ w'' Hs''. apply inv_post_refl; [exact Hw | congruence].
+  - intros w' Hs w'' Hs''. apply inv_post_refl; [exact Hw | congruence].
 Qed.
 
 End Safety.
